@@ -61,13 +61,15 @@ def run(prop, tier, seed, replay=None):
     V = report.Verdict(prop, tier, seed, "proof")
     V.assumptions = [
         "coefficient-field operations (Modular<int32_t>, Modular<Integer>, QField<Rational>) are modelled as exact field arithmetic (Z/p, Q): their own correctness is C03/C10",
-        "the schoolbook range product is proved exact for all inputs (stdmul_exact, stdmul_public_exact); the Karatsuba step (karaStep / mulR above the threshold) is modelled line by line and compared with the implementation at thresholds 50 and 2, but its exactness is decided per generated case by the reference product smul (proved exact: smul_exact), not by an all-inputs theorem (mul_exact_partial covers the schoolbook dispatch only)",
-        "sqr, truncated and middle products, pow/powmod, div/mod/divmod (Newton), modin, pdivmod/pmod, gcd/lcm/invmod, interpolation, CRT and p-adic conversion are not modelled: they are decided per generated case by the reference arithmetic / the certificates of Spec/PolySpec.lean whose soundness is proved in Props/C08.lean (divmod_unique, gcd_certificate, invmod_certificate, lcm_certificate, chkDivmod_sound, chkBezout_sound, eqv_correct)",
+        "the threshold used by the model for the SQR_THRESHOLD dispatch is the KARA_THRESHOLD printed by the harness (equal in the source and in both builds); the theorems hold for every threshold >= 1, so a difference would not be observable",
+        "truncated and middle products (mul with Val/deg, midmul family), pow/powmod, div/mod/divmod (Newton inverse), modin, pdivmod/pmod, gcd (plain), lcm, invmod, interpolation, CRT and p-adic conversion are not modelled: they are decided per generated case by the reference arithmetic / the certificates of Spec/PolySpec.lean whose soundness is proved in Props/C08.lean (divmod_unique, gcd_certificate, invmod_certificate, lcm_certificate, chkDivmod_sound, chkBezout_sound, eqv_correct)",
+        "the extended gcd is modelled with the quotient function as a parameter (gcdext_loop_sound holds for any quotient; termination of the loop is not proved) and compared with the implementation using the reference quotient",
         "sdivmod/sxgcd of the specification only *find* certificates that are re-checked by multiplication; smod is used unchecked as the reference for powmod and invmodunit",
         "GFqDom coefficient fields and NewtonInterpGeom (geometric interpolation) are not exercised",
     ]
     t0 = time.time()
     L = flow.lean_stage(V, ["GivaroModel.Props.C08"], "GivaroModel/Props/C08.lean")
+    common.shadow_inc()   # once, before the two parallel builds (they would race re-creating the include links)
     with cf.ThreadPoolExecutor(2) as ex:
         f1 = ex.submit(common.build_harness, "h_poly", "S", [], True, "g++")
         f2 = ex.submit(common.build_harness, "h_poly", "S", KARA2, True, "g++")
